@@ -45,7 +45,7 @@ func init() {
 		MaxSteps:     200000,
 		YieldFiles:   []string{"cred/manager.go", "ss2022/credstore.go", "service/reload_unix.go"},
 		QuickRuns:    10000,
-		ThoroughSecs: 600,
+		ThoroughSecs: 400,
 		Rule: "one run = one flavour (quiet | duplicate-key | save-race | concurrent-disjoint | concurrent-same-user | concurrent-reload | anything | empty-store-file), key size, " +
 			"store configuration (both/tcp/udp), 3-4 user names, 3-8 keys, an initial store document and 1-4 API clients that draw up to 32 operations " +
 			"(add/update/delete/get/list/reload via API and via LoadFromFile, file edits: valid, malformed, wrong key length, duplicate keys, empty; malformed and " +
